@@ -1,7 +1,11 @@
 import CharsetProof.Lemmas.EntryFacts
 import CharsetProof.Lemmas.SortPerm
 import CharsetProof.Props.C04
+import CharsetProof.Props.C04b
 open Charset
+#print axioms C04_valid_utf8_nonempty
+#print axioms C04_valid_utf8_current
+#print axioms probe_utf8_valid
 #print axioms C04_threshold
 #print axioms C04_lt
 #print axioms C04_percents
